@@ -39,6 +39,18 @@ INFO = {
  'C22-b': ('C22', 'the extension records the UNWALKED left term: needs left operand a variable already bound to a non-variable and right operand an unbound variable', ['C22']),
  'C23-a': ('C23', 'no constraint re-run when a first one-value domain binds a variable: needs a tree disequality on x, then x given a one-value domain, and no later unification (assert in diseq walk_star)', ['C23']),
  'C24-a': ('C24', 'same mechanism as C02-a: needs list elements that are themselves lists (multi-pair disequalities posted by distinct/rember/member1) and later bindings', ['C24', 'C02', 'C04']),
+ 'C01-b': ('C01', 'SMap::walk_star loops along the list spine and does not deep-walk a compound improper tail: needs [a | t] with t (walked) a compound holding a bound variable, in an answer', ['C01', 'C20']),
+ 'C04-b': ('C04', 'resolve_storable_domain re-runs only constraints whose RAW operands mention the root: needs an FD constraint posted on an alias, the root narrowed to one value by propagation/intersection, and no later unification', ['C04', 'C16']),
+ 'C11-b': ('C11', 'project macro + operator changed consistently (body takes Vec<LTerm>) and the names of |x, y| are paired with the projected values in reverse: needs project over >= 2 variables with an asymmetric body', ['C11']),
+ 'C12-b': ('C12', 'InferredConj::from_conjunctions keeps only the first goal of a multi-goal clause: needs a for body with a bracketed clause [g1, g2, ..] written in SURFACE syntax', ['C12']),
+ 'C13-b': ('C13', 'matche/matcha/matchu no longer alias the scrutinee as __term__ before declaring pattern variables: needs a pattern variable with the same name as a variable of the scrutinee (Clash naming twin)', ['C13']),
+ 'C14-b': ('C14', 'SMap::reify skips free variables named _: needs a user-written _ still free in the answer with a disequality on it (the constraint is dropped by purify)', ['C14', 'C03']),
+ 'C15-b': ('C15', 'pattern variables of a |-arm collected from the first alternative only: needs an arm p1 | p2 where p2 mentions a variable p1 does not (captures an outer variable of that name, else does not compile)', ['C15', 'C13']),
+ 'C18-b': ('C18', 'is_disjoint fast path for Sparse x Interval is off by one at the interval end: needs a mixed-representation pair whose only shared value is the interval end ({1,5} vs 3..=5)', ['C18']),
+ 'C19-b': ('C19', 'timesz arm u,w ground binds v without re-running the store: needs timesz(a, x, c) solving x with an EARLIER plusz/timesz sharing x and no later unification', ['C19']),
+ 'C21-b': ('C21', 'LTermIterMut stops before the improper tail: needs an improper list traversed mutably (iter_mut / IndexMut at the tail position)', ['C21']),
+ 'C23-b': ('C23', 'Sparse x Sparse intersection returns an EMPTY domain for overlapping-range sets without a common value: needs two interleaving sparse domains meeting on one variable ({-1,1} and {0,2}); later min/max/labeling panics', ['C23', 'C16', 'C17', 'C18']),
+ 'C24-b': ('C24', 'push_and_normalize discards the NEW disequality when it subsumes a stored one: needs list elements that are lists sharing variables (multi-pair weak constraint first, stronger one later) in distinct/member1/rember', ['C24', 'C02']),
 }
 logs = ''
 for f in glob.glob(os.path.join(ROOT, 'verify_wave*.log')) + glob.glob('/tmp/verify_wave*.log'):
@@ -49,7 +61,7 @@ def results(dirname):
     return out
 blocks = {}
 for f in sorted(set(glob.glob(os.path.join(ROOT, 'verify_wave*.log')) + glob.glob('/tmp/verify_wave*.log'))):
-    rnd = 'b' if 'wave4' in f else 'a'
+    rnd = 'b' if ('wave4' in f or 'wave5' in f) else 'a'
     cur = None
     for line in open(f):
         m = re.match(r'== (C\d\d)', line)
